@@ -651,7 +651,7 @@ const Property C02 = {
     "per run a command table drawn from the supported pattern grammar (1..4 keywords from a pool with pairwise distinct short/long forms, [:OPT] keywords incl. the first, "
     "KEY#, trailing ?, common *XYZ, shared first keywords, duplicated entries; 1 run in 5 uses the tables shipped in tests/examples) and 1..6 messages of 1..6 units whose "
     "headers are spellings of entries (short/long, any case, leading colon, optional keywords in/out, numeric suffixes), relative tails, or undefined headers; any "
-    "segmentation, preceding broken/overrun messages, allocation failure on the -113 text. Oracle: independent composer + pattern-language acceptor, per unit via hook H2. "
+    "segmentation, preceding broken/overrun messages, allocation failure on the -113 text. Oracle: independent composer + pattern-language acceptor, per unit via hook H2. Also: tables of up to 330 entries, deep trees with 45-character common prefixes spelled in plain long form, keywords with underscores and digits, patterns with a root colon, long numeric suffixes, entries without callback, two tables with handlers that point the context at the other one. "
     "distinct_nontrivial = distinct canonical trace hashes.",
 };
 PropertyRegistrar r02(&C02);
